@@ -440,10 +440,10 @@ func c13(run *ev.Run, tier string) {
 		c := baseCfg(false)
 		c.Info.MTime = time.Unix(1600000000, 0).UTC()
 		c.Info.RPM.BuildHost = "verif-host"
-		c.Info.Depends = []string{"libfoo (>= 1.2)", "plain", "libbar (<< 3)"}
-		c.Info.Provides = []string{"virt (= 1.0)", "virt2"}
-		c.Info.Replaces = []string{"old (<< 1.0)"}
-		c.Info.Conflicts = []string{"foe (>= 9)"}
+		c.Info.Depends = []string{"libfoo (>= 1.2)", "plain", "plain", "libbar (<< 3)"} // items given twice stay as given
+		c.Info.Provides = []string{"virt (= 1.0)", "virt2", "virt2"}
+		c.Info.Replaces = []string{"old (<< 1.0)", "old (<< 1.0)", "older"}
+		c.Info.Conflicts = []string{"foe (>= 9)", "foe (>= 9)", "foe2"}
 		c.Info.Recommends = []string{"rec (>= 2)"}
 		c.Info.Suggests = []string{"sug (>= 3)"}
 		c.Info.Contents = files.Contents{
@@ -470,7 +470,7 @@ func c13(run *ev.Run, tier string) {
 			p := dec.Decode(f, res.Bytes, false)
 			switch f {
 			case "deb", "ipk":
-				if v, _ := p.MetaGet("Depends"); v != "libfoo (>= 1.2), plain, libbar (<< 3)" {
+				if v, _ := p.MetaGet("Depends"); v != "libfoo (>= 1.2), plain, plain, libbar (<< 3)" {
 					run.Violate("C13/"+f+"/package-depends-differ-from-effective-settings", map[string]any{"shared_config": true, "got": v})
 				}
 			case "rpm":
@@ -525,6 +525,47 @@ func c13(run *ev.Run, tier string) {
 				}
 			}
 			run.Set("shared_config_packages_built", sharedBuilt)
+		}
+	}
+
+	// part 2d: an override list whose items all expand to nothing sets nothing:
+	// the format keeps the base list; surviving items replace it
+	for _, rel := range []string{"conflicts", "depends", "replaces", "recommends", "provides", "suggests"} {
+		for _, ovItems := range [][]string{{"${VERIF_EMPTY}"}, {"${VERIF_EMPTY}", "  ${VERIF_BLANK}  "}, {"${VERIF_EMPTY}", "kept-item"}, {"kept-item", "${VERIF_EMPTY}"}} {
+			doc := "name: ovr\narch: amd64\nversion: 1.0.0\nmaintainer: \"O <o@example.com>\"\ndescription: d\n" + rel + ":\n  - base-item\noverrides:\n  deb:\n    " + rel + ":\n"
+			for _, it := range ovItems {
+				doc += "      - \"" + it + "\"\n"
+			}
+			doc += "  rpm:\n    umask: 0o027\n"
+			cfg, err := parseYAML(doc, func(k string) string {
+				if k == "VERIF_BLANK" {
+					return "  "
+				}
+				return ""
+			})
+			run.Case(fmt.Sprintf("override-list-expands-to-nothing|%s|%v", rel, ovItems), true)
+			if err != nil {
+				run.Violate("C13/parse-error", map[string]any{"doc": doc, "error": err.Error()})
+				continue
+			}
+			want := map[string][]string{"deb": {"base-item"}, "rpm": {"base-item"}, "apk": {"base-item"}}
+			for _, it := range ovItems {
+				if it == "kept-item" {
+					want["deb"] = []string{"kept-item"}
+				}
+			}
+			for _, f := range []string{"rpm", "deb", "apk", "deb"} {
+				info, err := cfg.Get(f)
+				if err != nil {
+					run.Violate("C13/"+f+"/get-error", map[string]any{"error": err.Error()})
+					continue
+				}
+				got := map[string][]string{"conflicts": info.Conflicts, "depends": info.Depends, "replaces": info.Replaces, "recommends": info.Recommends, "provides": info.Provides, "suggests": info.Suggests}[rel]
+				atomic.AddInt64(&leafCmp, 1)
+				if strings.Join(got, "|") != strings.Join(want[f], "|") || len(got) != len(want[f]) {
+					run.Violate("C13/"+f+"/override-list-that-expands-to-nothing/"+rel, map[string]any{"override_items": ovItems, "got": got, "want": want[f]})
+				}
+			}
 		}
 	}
 
